@@ -68,7 +68,7 @@ theorem iterItems_encoded (b : Bytes) (sp : Bool) (fields : List Field) (epi : B
 /-- **Round trip.**  For every list of fields of the domain (names and file names free of `"` and
 of line breaks, file names non-empty, media types without parameters; any text values, any file
 bytes; any repetition of names, also across text fields and uploads), every boundary that can be
-named in the Content-Type header (as a token or as a quoted string) and that the parser accepts,
+named in the Content-Type header (as a token or as a quoted string; no `;`, `"`, LF, CR),
 every epilogue, every `max_memfile_size` that covers the header blocks and the text values, every
 `content_length`, and every fragmentation `chunks` in which the body reader delivered the encoded
 body (either framing): reading `POST` succeeds, and under every key `POST` shows exactly the fields
@@ -77,7 +77,7 @@ name, raw file name, content type and the exact bytes; a name used once is store
 one as a list.  The markup of the encoded body is the hypothesis `MarkupExact` (C06). -/
 theorem form_roundtrip (boundary : Str) (quote : Bool) (fields : List Field) (epilogue : Bytes)
     (chunks : List Bytes) (cl : Int) (maxMemfile : Nat) (emap : List (String × Nat)) (jl : JLoads)
-    (hb : LegalBoundary boundary) (hcr : CR ∉ utf8Encode boundary)
+    (hb : LegalBoundary boundary)
     (hf : ∀ f ∈ fields, FieldOK f) (hbud : textBudget fields ≤ maxMemfile)
     (hbody : chunks.flatten = encodeForm boundary fields epilogue)
     (hmk : MarkupExact (utf8Encode boundary) (fields.map Field.part) chunks) :
@@ -92,6 +92,8 @@ theorem form_roundtrip (boundary : Str) (quote : Bool) (fields : List Field) (ep
         Shows body sp (dictGet files k) (fields.filter (fun f => f.name = k ∧ f.isFile = true)) := by
   -- the markup object
   obtain ⟨s0, hs0⟩ : ∃ s0, St.init (utf8Encode boundary) = .ok s0 := by
+    have hcr : CR ∉ utf8Encode boundary :=
+      cr_not_mem_utf8Encode boundary (fun h => (hb.2 _ h).2.2.2 rfl)
     unfold St.init Markuper.init
     rw [if_neg hcr]
     exact ⟨_, rfl⟩
@@ -138,5 +140,91 @@ theorem form_roundtrip (boundary : Str) (quote : Bool) (fields : List Field) (ep
         (fun it => decide (it.name = k ∧ itemToFiles it = true))
         (viewItem body sp ∘ itemFst) (fun f => some (specItem f))
         (fun a b h => ⟨by rw [h.1, h.2.1], h.2.2⟩) _ _ hrb
+
+instance (f : Field) : Decidable (FieldOK f) := by
+  cases f <;> unfold FieldOK <;> infer_instance
+
+/-- **No byte of one part appears in another.**  In the encoded body of every field list of the
+domain (any boundary, any epilogue), the `i`-th field owns the byte range `dataRanges[i]`:
+(a) there is one range per field, it holds exactly that field's data and is directly followed by
+the delimiter `CRLF--boundary`; (b) ranges are in submission order and any two are separated by at
+least a delimiter, the CRLF after it and the `CRLFCRLF` of a header block, so they are pairwise
+disjoint and none touches another part's headers; (c) the field that `iter_items` yields for part
+`i` of an upload has exactly this range as its `BytesIOProxy` window (and `form_roundtrip` shows
+the window reads back the content), so what a handler reads from one upload never contains a byte
+of another part. -/
+theorem parts_disjoint (boundary : Str) (fields : List Field) (epilogue : Bytes)
+    (hf : ∀ f ∈ fields, FieldOK f) :
+    let b := utf8Encode boundary
+    let body := encodeForm boundary fields epilogue
+    let T := Spec.delim b
+    let rs := dataRanges T.length (2 + b.length) fields
+    rs.length = fields.length ∧
+    (∀ (i : Nat) (f : Field) (r : Nat × Nat), fields[i]? = some f → rs[i]? = some r →
+      r.2 = r.1 + f.data.length ∧ (body.drop r.1).take f.data.length = f.data ∧
+      (body.drop r.2).take T.length = T) ∧
+    (∀ (i j : Nat) (ri rj : Nat × Nat), i < j → rs[i]? = some ri → rs[j]? = some rj →
+      ri.2 + T.length + 6 ≤ rj.1) ∧
+    (∀ (i : Nat) (f : Field) (r : Nat × Nat), fields[i]? = some f → rs[i]? = some r → f.isFile = true →
+      ∃ it, (encodedItems T.length (2 + b.length) fields)[i]? = some it ∧
+        it.file = some ((r.1 : Int), (r.2 : Int)) ∧
+        ∃ u, itemFst it = .file u ∧ u.file = ((r.1 : Int), (r.2 : Int))) := by
+  intro b body T rs
+  have hl : 2 + b.length = (HYPHENx2 ++ b).length := by simp [HYPHENx2]; omega
+  refine ⟨dataRanges_length _ _ _, ?_, dataRanges_separated _ _ _, ?_⟩
+  · intro i f r hfi hri
+    have := dataRanges_content b fields (HYPHENx2 ++ b) (HYPHENx2 ++ epilogue) hf i f r hfi (by rw [← hl]; exact hri)
+    exact this
+  · intro i f r hfi hri hfile
+    have hget : (encodedItems T.length (2 + b.length) fields)[i]? = some (fieldS f (r.1 : Int) (r.2 : Int)) := by
+      unfold encodedItems
+      rw [List.getElem?_map, (List.getElem?_zip_eq_some (z := (f, r))).mpr ⟨hfi, hri⟩]
+      rfl
+    refine ⟨_, hget, ?_⟩
+    have hok := hf f (List.mem_of_getElem? hfi)
+    cases f with
+    | text n v => simp [Field.isFile] at hfile
+    | file n fn ct c =>
+      refine ⟨rfl, ⟨n, fn, fieldHeaders (.file n fn ct c), ((r.1 : Int), (r.2 : Int))⟩, ?_, rfl⟩
+      exact (itemOf_fieldS (.file n fn ct c) hok _ _).1
+
+section NonVacuity
+
+/-- the example of the property text: a text field named `f;x=y` and an upload `q;z=1.txt` whose
+content looks like the delimiter, boundary `b d` (needs quoting) -/
+def exFields : List Field :=
+  [.text cs!"f;x=y" cs!"v é", .file cs!"u" cs!"q;z=1.txt" (some cs!"text/plain") [13, 10, 45, 45, 98, 32, 0, 255],
+   .text cs!"f;x=y" cs!""]
+
+def exBody : Bytes := encodeForm cs!"b d" exFields CRLF
+
+/-- all hypotheses of `form_roundtrip` hold for the example, `MarkupExact` included, with the body
+delivered in two pieces -/
+example :
+    LegalBoundary cs!"b d" ∧ (∀ f ∈ exFields, FieldOK f) ∧
+    textBudget exFields ≤ 200 ∧ [exBody.take 70, exBody.drop 70].flatten = exBody := by
+  refine ⟨by decide, by decide, by decide, by simp⟩
+
+example : MarkupExact (utf8Encode cs!"b d") (exFields.map Field.part) [exBody.take 70, exBody.drop 70] := by
+  intro s0 h0
+  have key : (match St.init (utf8Encode cs!"b d") with
+      | .ok s => decide ((feed s [exBody.take 70, exBody.drop 70]).markups =
+          Spec.expectedMarkups (utf8Encode cs!"b d") (exFields.map Field.part) ∧
+          (feed s [exBody.take 70, exBody.drop 70]).error = none)
+      | .error _ => true) = true := by decide +kernel
+  rw [h0] at key
+  simpa using key
+
+/-- and the conclusion can be observed directly on the model: `POST` of the example -/
+example :
+    (match (postOf ⟨200, Gen.formsErrorsMap⟩ (fun _ => .null)
+        ⟨some (contentTypeFor cs!"b d" true), 0, .ok [exBody.take 70, exBody.drop 70]⟩).result with
+      | .ok (.fields d) => d.map (fun e => (e.1, (vals (some e.2)).map (viewItem exBody false)))
+      | _ => []) =
+    [(cs!"f;x=y", [some (.text cs!"v é"), some (.text cs!"")]),
+     (cs!"u", [some (.file cs!"u" cs!"q;z=1.txt" (some cs!"text/plain") [13, 10, 45, 45, 98, 32, 0, 255])])] := by
+  decide +kernel
+
+end NonVacuity
 
 end Ombott.Forms
